@@ -39,6 +39,7 @@ def run(ctx, col, tier):
     from ..rules import callbacks
     callbacks.check(ctx, col, "R-BRANCH", ctx.repo.get_def("swcgeom.core.tree.Tree.get_branches"))
     callbacks.check(ctx, col, "R-PATH", ctx.repo.get_def("swcgeom.core.tree.Tree.get_paths"))
+    col.guard(longest, ctx, col)
     col.guard(get_branches, ctx, col)
     col.guard(thresholds, ctx, col)
     col.guard(get_paths, ctx, col)
@@ -326,3 +327,14 @@ def anchored(ctx, col):
                 col.bad("R-THRESH", nb.qualname, nb.loc(w), "downwards to the nearest furcation or tip (the root is not an end by itself)",
                         f"the downward walk stops at `{norm_src(c)}`: started from a root with a single child it stops at the root itself "
                         f"and the stem branch is cut to one node", stmt="down", definite=True)
+
+
+def longest(ctx, col):
+    """The longest path is one of the root-to-tip paths of the decomposition."""
+    d = ctx.repo.get_def("swcgeom.transforms.tree.ToLongestPath.__call__")
+    col.text_group("R-PATH", d.qualname, d, [
+        ("candidates are the root-to-tip paths of the tree", ["paths = x.get_paths()"], "long:paths"),
+        ("the longest by path length", ["idx = np.argmax([p.length() for p in paths])"], "long:argmax"),
+        ("the result is that path", ["path = paths[idx]"], "long:pick"),
+        ("detached on request", ["if self.detach: path = path.detach()"], "long:detach"),
+        ("returned", ["return path"], "long:ret")], fixed=("x",))
